@@ -15,6 +15,7 @@ fields("xandikos.store.git.GitStore", {
     "ghost_subdirs": "set[str]",
     "path": "str",
     "ref": "bytes",
+    "index_manager": "obj:xandikos.store.index.AutoIndexManager",
 })
 
 
